@@ -15,6 +15,7 @@ EXPLANATION = (
     "breaks/returns; each arm gets a fresh clone of the call environment from which the arm's own pattern variables are cleared before matching, and "
     "the clearing helper visits every sub-pattern (prefix, spread, suffix) - otherwise stale bindings turn into equality constraints. Not decided: the "
     "visited state sequence and payload values (runtime)."
+    ' (R5) the FSM arm loop is left by `break` only after a transition was applied (flag set in the same block or break guarded by the flag).'
 )
 
 
